@@ -72,7 +72,7 @@ def main():
         for x in inputs:
             f.write(json.dumps(x) + "\n")
     pr = subprocess.run(["timeout", "2400", binpath, pfile, ofile], capture_output=True, text=True)
-    outs = [json.loads(l) for l in open(ofile)] if os.path.exists(ofile) else []
+    outs = vlib.read_ndjson(ofile)
     if pr.returncode != 0 or len(outs) != len(inputs):
         bad = inputs[min(len(outs), len(inputs) - 1)]
         rep.violation("crash-or-hang", {"input": bad}, "MultibodyGraphMaker did not return for %s (exit %s)" % (json.dumps(bad), pr.returncode))
